@@ -50,7 +50,7 @@ def unit_flavours(prop=None):
 def build_one(uname, fl, vacuity=False, bare=None):
     u = UNITS["units"][uname]
     tpl = os.path.join(ROOT, "contracts", u["template"])
-    g = gen.generate(tpl, fl, repo=REPO, vacuity=vacuity, bare=bare)
+    g = gen.generate(tpl, fl, repo=REPO, vacuity=vacuity, bare=bare, base_texts=baseline_texts())
     os.makedirs(BUILD, exist_ok=True)
     path = os.path.join(BUILD, "%s_%s%s%s.rs" % (uname, fl, "_vac" if vacuity else "", "_bare" if bare else ""))
     open(path, "w").write("\n".join(g.lines) + "\n")
@@ -163,6 +163,18 @@ def verify_unit(uname, fl, seed=None, rlimit=None, vacuity=True):
     return out
 
 
+_BT = None
+
+
+def baseline_texts():
+    """real text (signature + body) of every extracted function when the baseline was recorded: used by R19 to carry
+    renamed locals over into the proof annotations"""
+    global _BT
+    if _BT is None:
+        _BT = load_json(os.path.join(ROOT, "baseline_text.json"), None)
+    return _BT
+
+
 def baseline():
     return load_json(os.path.join(ROOT, "baseline_extract.json"), {"functions": {}, "assumption_sites": {}, "trusted": {}})
 
@@ -184,6 +196,7 @@ def trusted_pins():
 
 def record_baseline():
     base = {"functions": {}, "assumption_sites": {}, "trusted": trusted_pins(), "obligation_counts": {}}
+    texts = {}
     ok = True
     results = run_units(unit_flavours(), None, None)
     for (uname, fl), u in results.items():
@@ -196,11 +209,13 @@ def record_baseline():
             o = u["obligations"].get(f["id"])
             if o and o["success"]:
                 base["functions"]["%s/%s" % (key, f["id"])] = f["hash"]
+                texts["%s/%s" % (key, f["id"])] = f["text"]
             else:
                 print("not recorded (undischarged): %s/%s" % (key, f["id"]))
         base["assumption_sites"][key] = u["assumption_sites"]
         base["obligation_counts"][key] = len(u["obligations"])
     json.dump(base, open(os.path.join(ROOT, "baseline_extract.json"), "w"), indent=1, sort_keys=True)
+    json.dump(texts, open(os.path.join(ROOT, "baseline_text.json"), "w"), indent=0, sort_keys=True)
     print("baseline recorded: %d functions" % len(base["functions"]))
     return 0 if ok else 2
 
@@ -296,6 +311,13 @@ def decide(prop, tier, seed):
             if not changed_in_unit:
                 undecided.append("%s/%s: refuted although no extracted text of the unit differs from the baseline (%s)" % (key, fid, clause))
                 continue
+            lost_h = (f or {}).get("hints_lost") or []
+            if (lost_h or fid in (u.get("bare") or [])) and not confirmed_by_input(prop, "%s/%s" % (key, fid)):
+                # the proof annotations of this function were written for a different text: without them the solver cannot
+                # tell a broken property from a missing invariant, so this is no verdict (never an alarm)
+                undecided.append("%s/%s: changed text not decided: its proof annotations no longer apply (%s); solver: %s" % (
+                    key, fid, "; ".join(lost_h)[:300] or "bare mode", clause))
+                continue
             violations.append(dict(obligation="%s/%s" % (key, fid), clause=clause, fn=f, diags=o["diags"],
                                    changed=changed_in_unit, path=u["path"], unit=uname, flavour=fl,
                                    hints_lost=(f or {}).get("hints_lost") or []))
@@ -328,10 +350,60 @@ def decide(prop, tier, seed):
             fn_report.append(dict(obligation=o["id"], kind="syntactic R4b scan", ok=o["ok"], ms=0, rlimit=0))
     if prop == "C15":
         extra["twin_comparison"] = twin_table(results)
+    if tier == "thorough" and not os.environ.get("VERIF_NO_KILL"):
+        km = kill_matrix(prop)
+        extra["mutation_adequacy"] = dict(
+            rule="seeded property-breaking changes of this property (seeded/*/patch.diff, each confirmed to break the property on the real crate while the test suite passes) applied one at a time to a scratch copy of the tree under check; outcome of the quick check",
+            seeds=len(km), reported=sum(1 for r in km if r["outcome"] == "reported"), undecided=sum(1 for r in km if r["outcome"] == "undecided"),
+            not_noticed=sum(1 for r in km if r["outcome"] == "not noticed"), rows=km)
     return dict(prop=prop, tier=tier, seed=seed, extra=extra, results=results, undecided=undecided, violations=violations,
                 known_hits=known_hits, obligations=obligations, discharged=discharged, fn_report=fn_report,
                 samples=samples, smt_ms=smt_ms, wall=time.time() - t0, rules=rules, ufs=ufs,
                 extra_seeds=[s for s, _ in extra_runs])
+
+
+def kill_matrix(prop, jobs=3):
+    """thorough tier: mutation adequacy of the contracts. Every seeded property-breaking change recorded under seeded/
+    for this property (patch.diff against the repository; produced by people who saw only the property text) is applied
+    to a scratch copy of the tree under check and the quick check is run against it. Reported, never a verdict: a change
+    that is not noticed is a weakness of the contracts, not a violation of the property by the tree under check."""
+    import glob, tempfile, subprocess, shutil
+    import concurrent.futures as cff
+    seeds = []
+    for d in sorted(glob.glob(os.path.join(ROOT, "seeded", "*"))):
+        mp = os.path.join(d, "meta.json")
+        pp = os.path.join(d, "patch.diff")
+        if not (os.path.exists(mp) and os.path.exists(pp)):
+            continue
+        m = load_json(mp, {})
+        p = str(m.get("property", "")).split()[0].strip(",") if m.get("property") else ""
+        if p != prop or not (m.get("confirmation", {}).get("confirmed", True)):
+            continue
+        seeds.append((os.path.basename(d), pp))
+
+    def one(item):
+        name, patch = item
+        tmp = tempfile.mkdtemp(prefix="vxkill_")
+        try:
+            shutil.copytree(os.path.join(REPO, "src"), os.path.join(tmp, "src"))
+            if subprocess.run(["git", "init", "-q"], cwd=tmp).returncode:
+                return dict(seed=name, outcome="scratch copy failed")
+            if subprocess.run(["git", "apply", "--unsafe-paths", patch], cwd=tmp, stdout=subprocess.PIPE, stderr=subprocess.PIPE).returncode:
+                return dict(seed=name, outcome="patch does not apply to this tree")
+            env = dict(os.environ, VERIF_REPO=tmp, VERIF_BUILD=os.path.join(tmp, "build"), VERIF_EVIDENCE=os.path.join(tmp, "evidence"), VERIF_REPLAY=os.path.join(tmp, "replay"))
+            r = subprocess.run([sys.executable, os.path.join(ROOT, "vx", "check.py"), "--property", prop, "--tier", "quick"], cwd=ROOT, env=env,
+                               stdout=subprocess.PIPE, stderr=subprocess.STDOUT, text=True, timeout=3600)
+            first = next((l for l in r.stdout.split("\n") if l.startswith(("VIOLATION", "UNDECIDED"))), "")
+            obl = first.split("obligation=")[1].split(" clause")[0] if "obligation=" in first else ""
+            return dict(seed=name, outcome={0: "not noticed", 1: "reported", 2: "undecided"}.get(r.returncode, "exit %d" % r.returncode), obligation=obl)
+        except Exception as e:
+            return dict(seed=name, outcome="error: %s" % e)
+        finally:
+            shutil.rmtree(tmp, ignore_errors=True)
+
+    with cff.ThreadPoolExecutor(jobs) as ex:
+        rows = list(ex.map(one, seeds))
+    return rows
 
 
 ALGO_FILES = ["bfs.rs", "dfs.rs", "pfs.rs", "order.rs", "path.rs", "method.rs"]
@@ -414,7 +486,7 @@ def twin_table(results):
 
 
 def write_replay(prop, v):
-    d = os.path.join(ROOT, "replay", prop)
+    d = os.path.join(os.environ.get("VERIF_REPLAY") or os.path.join(ROOT, "replay"), prop)
     os.makedirs(d, exist_ok=True)
     name = re.sub(r"[^A-Za-z0-9_.-]", "_", v["obligation"]) + ".json"
     path = os.path.join(d, name)
@@ -438,12 +510,26 @@ def write_replay(prop, v):
     return path, witness
 
 
+def confirmed_by_input(prop, obligation):
+    """a refutation whose proof annotations were lost counts only if a failing input can be shown on the real code: a stored
+    defect witness of this obligation, or one of the property's oracle programs, fails on the tree under check"""
+    try:
+        from vx import witness
+        w = witness.try_witness(prop, dict(obligation=obligation), REPO) or witness.run_oracles(prop, REPO)
+        return w
+    except Exception:
+        return None
+
+
 def find_witness(prop, v):
     """witness programs (DESIGN §3.8): a stored program is attached only if it
     fails on the tree being checked."""
     try:
         from vx import witness
-        return witness.try_witness(prop, v, REPO)
+        w = witness.try_witness(prop, v, REPO)
+        if w is None and v.get("hints_lost"):
+            w = witness.run_oracles(prop, REPO)
+        return w
     except Exception:
         return None
 
@@ -538,6 +624,11 @@ def main():
         rc = 1
     if rc == 0 and dec["undecided"]:
         rc = 2
+    ma = dec.get("extra", {}).get("mutation_adequacy")
+    if ma:
+        for r in ma["rows"]:
+            print("seeded-change %s: %s %s" % (r["seed"], r["outcome"], r.get("obligation", "")))
+        print("mutation adequacy: %d of %d seeded changes of %s reported, %d undecided, %d not noticed" % (ma["reported"], ma["seeds"], a.property, ma["undecided"], ma["not_noticed"]))
     print("property %s tier %s: %d/%d obligations discharged, %d violations, %d undecided, %d known findings, %.1fs" % (
         a.property, a.tier, dec["discharged"], dec["obligations"], len(dec["violations"]), len(dec["undecided"]), len(dec["known_hits"]), dec["wall"]))
     return rc
